@@ -115,7 +115,10 @@ def _run(prop, tier, ti, seed, a, scratch, t_start) -> int:
 
     # ---- shim self-test (machinery; failure = exit 3)
     sjobs = [Job(c, 'main', timeout=30.0) for c in shim_conds]
+    from vf import flags
+    saved_flag, flags.int_format_placeholder = flags.int_format_placeholder, False     # the self-test checks exact formatting
     e1.run_jobs('SHIMTEST', tier, sjobs, scratch, a.workers, log)
+    flags.int_format_placeholder = saved_flag
     for j in sjobs:
         st, d = e1.classify(j.result)
         if st != 'confirmed':
